@@ -639,4 +639,63 @@ theorem offsetBy_snd (eps eps' lon lat posang dist : ℝ) :
 theorem dotRD_pole (ra0 ra dec p : ℝ) (hp : cos p = 0) : dotRD ra0 p ra dec = sin p * sin dec := by
   rw [dotRD_eq, hp]; ring
 
+/-! ### block broadcast vs. `np.take(src_idxs)` -/
+
+/-- entries below the current block position do not matter -/
+theorem blockBroadcastFrom_cons_lt {α : Type} (xs : List α) :
+    ∀ (start i : ℕ) (t : List ℕ), i < start →
+      blockBroadcastFrom start xs (i :: t) = blockBroadcastFrom start xs t := by
+  induction xs with
+  | nil => intros; rfl
+  | cons x rest ih =>
+    intro start i t hlt
+    have hne : ¬ i = start := by omega
+    simp only [blockBroadcastFrom, List.count_cons, beq_iff_eq, hne, if_false, Nat.add_zero]
+    rw [ih (start + 1) i t (by omega)]
+
+/-- prepending the smallest source index prepends the value of that source -/
+theorem blockBroadcastFrom_cons_min {α : Type} (xs : List α) :
+    ∀ (start i : ℕ) (t : List ℕ), (∀ j ∈ t, i ≤ j) → start ≤ i → i < start + xs.length →
+      (blockBroadcastFrom start xs (i :: t)).map some
+        = xs[i - start]? :: (blockBroadcastFrom start xs t).map some := by
+  induction xs with
+  | nil => intro start i t _ h1 h2; simp at h2; omega
+  | cons x rest ih =>
+    intro start i t hmin h1 h2
+    by_cases heq : i = start
+    · subst heq
+      simp only [blockBroadcastFrom, List.count_cons_self, Nat.sub_self, List.getElem?_cons_zero]
+      rw [blockBroadcastFrom_cons_lt rest (i + 1) i t (by omega)]
+      simp [List.replicate_succ]
+    · have hlt : start < i := by omega
+      have hc0 : t.count start = 0 := by
+        rw [List.count_eq_zero]
+        intro hmem
+        have := hmin start hmem
+        omega
+      have hne : ¬ i = start := heq
+      simp only [blockBroadcastFrom, List.count_cons, beq_iff_eq, hne, if_false, Nat.add_zero, hc0,
+        List.replicate_zero, List.nil_append]
+      rw [ih (start + 1) i t hmin (by omega) (by simp at h2; omega)]
+      have : i - start = (i - (start + 1)) + 1 := by omega
+      rw [this, List.getElem?_cons_succ]
+
+/-- **for source indices in ascending order the block layout is `np.take(src_idxs)`** -/
+theorem blockBroadcast_eq_take_of_sorted {α : Type} (xs : List α) (idxs : List ℕ)
+    (hs : idxs.Pairwise (· ≤ ·)) (hr : ∀ i ∈ idxs, i < xs.length) :
+    (blockBroadcast xs idxs).map some = takeSrc xs idxs := by
+  unfold blockBroadcast takeSrc
+  induction idxs with
+  | nil =>
+    have : ∀ (ys : List α) (s : ℕ), blockBroadcastFrom s ys [] = [] := by
+      intro ys; induction ys with
+      | nil => intro s; rfl
+      | cons y r ih => intro s; simp [blockBroadcastFrom, ih]
+    simp [this]
+  | cons i t ih =>
+    rw [List.pairwise_cons] at hs
+    rw [blockBroadcastFrom_cons_min xs 0 i t hs.1 (Nat.zero_le _) (by simpa using hr i (by simp))]
+    simp only [Nat.sub_zero, List.map_cons]
+    rw [ih hs.2 (fun j hj => hr j (List.mem_cons_of_mem _ hj))]
+
 end Coords
